@@ -11,6 +11,15 @@
 //          ad*: one "<h>:<callback>:<prev>,<curr>,<next>,<first>,<last>" per call;
 //          " !unknown_type" when osmium::unknown_type left apply_diff; " accessor-mismatch" if
 //          DiffObject::type()/id()/version() are not those of curr()
+//   drive <entry> <script> <tokens...>      entry in it itc itr
+//       two DiffIterator objects a (fresh) and b (a copy of a) are driven by the script, one char per
+//       operation ('.' = separator, ignored):
+//         d use(*a)   r use(*a.operator->())   i ++a   p use(*a++)   a std::advance(a, 2)
+//         c b = a     s a = b                  e use(*b)   j ++b   q use(*b++)
+//         = a == end  ~ a == b
+//       -> per dereference "<prev>,<curr>,<next>,<first>,<last>", "@" for an operation that needs a
+//          dereferenceable iterator but stands at the end (NOT executed; decided by a position counter
+//          kept by the harness, not by asking the iterator), "E0|E1", "Q0|Q1" for the comparisons
 #include "c20_common.hpp"
 
 #include <osmium/diff_handler.hpp>
@@ -49,6 +58,35 @@ static void iterate(It first, It last) {
 }
 
 template <typename It>
+static bool drive(const std::string& script, int n, It first, It last) {
+    using DI = osmium::DiffIterator<It>;
+    DI a{first, last};
+    DI b{a};
+    const DI dend{last, last};
+    int pa = 0;
+    int pb = 0;
+    for (const char c : script) {
+        switch (c) {
+            case '.': break;
+            case 'd': if (pa < n) { env().event(diff_str(*a)); } else { env().event("@"); } break;
+            case 'r': if (pa < n) { env().event(diff_str(*a.operator->())); } else { env().event("@"); } break;
+            case 'i': if (pa < n) { ++a; ++pa; } else { env().event("@"); } break;
+            case 'p': if (pa < n) { env().event(diff_str(*a++)); ++pa; } else { env().event("@"); } break;
+            case 'a': if (pa + 1 < n) { std::advance(a, 2); pa += 2; } else { env().event("@"); } break;
+            case 'c': b = a; pb = pa; break;
+            case 's': a = b; pa = pb; break;
+            case 'e': if (pb < n) { env().event(diff_str(*b)); } else { env().event("@"); } break;
+            case 'j': if (pb < n) { ++b; ++pb; } else { env().event("@"); } break;
+            case 'q': if (pb < n) { env().event(diff_str(*b++)); ++pb; } else { env().event("@"); } break;
+            case '=': env().event(a == dend ? "E1" : "E0"); break;
+            case '~': env().event(a == b ? "Q1" : "Q0"); break;
+            default: return false;
+        }
+    }
+    return true;
+}
+
+template <typename It>
 static void apply_n(int nh, It first, It last) {
     DLog a{0}, b{1}, c{2};
     if (nh == 1) osmium::apply_diff(first, last, a);
@@ -59,11 +97,14 @@ static void apply_n(int nh, It first, It last) {
 int main() {
     return vh::line_loop([](const std::string& line) -> std::string {
         const auto w = vh::words(line);
-        if (w.size() < 3 || w[0] != "diff") return "bad-op";
+        if (w.size() < 3 || (w[0] != "diff" && w[0] != "drive")) return "bad-op";
+        const bool driving = w[0] == "drive";
         const std::string& e = w[1];
-        const int nh = std::atoi(w[2].c_str());
+        const int nh = driving ? 0 : std::atoi(w[2].c_str());
         const bool reader = e == "itr" || e == "adr";
-        if ((e[0] == 'a') && (nh < 1 || nh > 3)) return "bad-op";
+        if (!driving && (e[0] == 'a') && (nh < 1 || nh > 3)) return "bad-op";
+        if (driving && e != "it" && e != "itc" && e != "itr") return "bad-op";
+        int nobj = 0;
         std::vector<std::vector<Tok>> groups(1);
         for (std::size_t i = 3; i < w.size(); ++i) {
             if (w[i] == "|") { groups.emplace_back(); continue; }
@@ -76,6 +117,7 @@ int main() {
                 long long id = 0; unsigned v = 0;
                 if (std::sscanf(w[i].c_str() + 1, ":%lld:%u", &id, &v) != 2) return "bad-op";
                 t.id = id; t.v = v;
+                ++nobj;
             } else if (std::string{"nwra"}.find(t.t) != std::string::npos) {
                 return "bad-op";
             }
@@ -102,7 +144,14 @@ int main() {
         using InIt = osmium::io::InputIterator<FakeSource, OSMObject>;
         bool thrown = false;
         try {
-            if (e == "it") iterate(whole.begin<OSMObject>(), whole.end<OSMObject>());
+            if (driving) {
+                bool ok = false;
+                if (e == "it") ok = drive(w[2], nobj, whole.begin<OSMObject>(), whole.end<OSMObject>());
+                else if (e == "itc") ok = drive(w[2], nobj, cwhole.cbegin<OSMObject>(), cwhole.cend<OSMObject>());
+                else ok = drive(w[2], nobj, InIt{source}, InIt{});
+                if (!ok) return "bad-op";
+            }
+            else if (e == "it") iterate(whole.begin<OSMObject>(), whole.end<OSMObject>());
             else if (e == "itc") iterate(cwhole.cbegin<OSMObject>(), cwhole.cend<OSMObject>());
             else if (e == "itr") iterate(InIt{source}, InIt{});
             else if (e == "ad") apply_n(nh, whole.begin<OSMObject>(), whole.end<OSMObject>());
